@@ -14,7 +14,7 @@ RULE = ('programs = parents {none, group_by, roll x4, split, time_split(closing)
         'reference interpreter produces for that item (exact order; multiset when an overlapping roll hands one item to '
         'several windows, an order no property fixes), and again at completion. Non-trivial = program with a window/group '
         'parent and an input of >= 2 items; states = distinct (program, outputs-so-far) observations per step.')
-DEEP_PROBES = ('22 dual-mode leaf pipelines (flat_map, tee_map x3, mean/min/max, ...) as plain observables and multiplexed, driven by a Subject and by a cold rx.from_ source (deferred work shows as late outputs); every third nested program on a cold source; group_by > roll over the whole 6x6 grid with three alternating keys; batch(300), roll(300,300), roll(260,130) step by step; split on equal-but-not-identical predicate values')
+DEEP_PROBES = ('line / length-prefix un-framing chunk by chunk under every chunking (a frame leaves with the chunk that completes it); from_iterable over a generator with and without progress bar (no element taken ahead of its output); 22 dual-mode leaf pipelines (flat_map, tee_map x3, mean/min/max, ...) as plain observables and multiplexed, driven by a Subject and by a cold rx.from_ source (deferred work shows as late outputs); every third nested program on a cold source; group_by > roll over the whole 6x6 grid with three alternating keys; batch(300), roll(300,300), roll(260,130) step by step; split on equal-but-not-identical predicate values')
 ASSUMPTIONS = ['zip/combine_latest over a branch that contains an overlapping roll is excluded (unspecified delivery order '
                'would become visible in tuple values)',
                'multiplexed mode; plain mode only for pipelines without take/first (which complete a plain observable early)']
@@ -147,6 +147,10 @@ def units(tier):
     L = 4 if tier == 'quick' else 5
     out = [{'progs': part, 'L': L} for part in spaces.shard(progs, 400 if tier == 'quick' else 3000)]
     out.append({'modes': 'leaves', 'L': L})
+    out.append({'framing': 'line'})
+    for size in (1, 2, 4):
+        out.append({'framing': 'lp', 'size': size})
+    out.append({'source': 'from_iterable'})
     out += [{'modes': 'nested', 'progs': part, 'L': 3} for part in spaces.shard(progs[::3], 16)]
     nd = len(deep_specs())
     out += [{'deep': [i, min(nd, i + 40)]} for i in range(0, nd, 40)]
@@ -158,6 +162,18 @@ def cases(unit):
         ds = deep_specs()
         for i in range(*unit['deep']):
             yield {'spec': ds[i][0], 'seq': ds[i][1]}
+        return
+    if 'framing' in unit:
+        # un-framing, step by step: every frame is delivered with the chunk that completes it
+        alpha = ['', 'a', 'bc'] if unit['framing'] == 'line' else [b'', b'a', b'bc']
+        for items in spaces.sequences(alpha, 3):
+            yield {'framing': unit['framing'], 'size': unit.get('size'), 'items': [i if isinstance(i, str) else i.decode() for i in items]}
+        return
+    if 'source' in unit:
+        for n in (0, 1, 2, 6):
+            for progress in (False, True, {'interval': 1000}):
+                for mux in (False, True):
+                    yield {'source': 'from_iterable', 'n': n, 'progress': progress, 'mux': mux}
         return
     if unit.get('modes') == 'leaves':
         for leaf in MODE_LEAVES:
@@ -194,7 +210,101 @@ def viol(spec, sym, detail, case=None):
     return {'signature': 'C11|%s|%s' % (fam, sym), 'detail': detail}
 
 
+def run_framing(case, acc):
+    import rxsci.framing.line as line
+    import rxsci.framing.length_prefix as lp
+    from rx.subject import Subject
+    from ..bytelevel import RawSink, run
+    out = []
+    if case['framing'] == 'line':
+        items = list(case['items'])
+        framed = ''.join(run([line.frame()], items).items)
+        unframe = line.unframe
+        complete = lambda prefix: prefix.count('\n')
+    else:
+        items = [i.encode() for i in case['items']]
+        size = case['size']
+        framed = b''.join(run([lp.frame(size, 'big')], items).items)
+        unframe = lambda: lp.unframe(size, 'big')
+
+        def complete(prefix):
+            n = pos = 0
+            while pos + size <= len(prefix):
+                ln = int.from_bytes(prefix[pos:pos + size], 'big')
+                if pos + size + ln > len(prefix):
+                    break
+                pos += size + ln
+                n += 1
+            return n
+    for cuts in spaces.cut_sets(len(framed), None):
+        chunks = spaces.chunk(framed, cuts)
+        src = Subject()
+        sink = RawSink()
+        sink.subscribe_to(src.pipe(unframe()))
+        sofar = framed[:0]
+        acc.evals += 1
+        acc.traces += 1
+        acc.events += len(chunks) + 1
+        for k, c in enumerate(chunks):
+            src.on_next(c)
+            sofar = sofar + c
+            want = complete(sofar)
+            if len(sink.items) != want or sink.items != items[:want]:
+                sym = 'emitted-late' if len(sink.items) < want else ('emitted-early' if len(sink.items) > want else 'outputs-value')
+                out.append({'signature': 'C11|framing-%s|%s' % (case['framing'], sym),
+                            'detail': {'items': items, 'chunks': chunks, 'after_chunk': k, 'complete_frames_so_far': want, 'emitted': list(sink.items)}})
+                return out
+        src.on_completed()
+        if sink.items != items or sink.completed != 1:
+            out.append({'signature': 'C11|framing-%s|outputs-at-completion' % case['framing'], 'detail': {'items': items, 'chunks': chunks, 'emitted': list(sink.items)}})
+            return out
+        acc.outcomes.add(fast_hash(repr((case['framing'], chunks))))
+    acc.count('framing_chunk_schedules')
+    return out
+
+
+def run_source(case, acc):
+    """rs.ops.from_iterable over a generator: item k is emitted when exactly k+1 elements have been taken from the generator."""
+    import contextlib
+    import io
+    import rx
+    import rxsci as rs
+    from ..drivers import Sink, new_store
+    n = case['n']
+    taken = [0]
+
+    def gen():
+        for i in range(n):
+            taken[0] += 1
+            yield i
+    seen = []
+    sink = Sink()
+    with contextlib.redirect_stderr(io.StringIO()):
+        try:
+            src = rs.ops.from_iterable(gen(), progress=case['progress'])
+        except Exception:
+            return []          # no progress bar package in this environment
+        ops_ = [rs.ops.map(lambda x: (seen.append((x, taken[0])), x)[1])]
+        obs = src.pipe(rs.state.with_store(new_store(), ops_)) if case['mux'] else src.pipe(*ops_)
+        sink.subscribe_to(obs)
+    acc.evals += 1
+    acc.traces += 1
+    acc.events += n + 1
+    out = []
+    if sink.error is not None or sink.completed != 1 or sink.items != list(range(n)):
+        out.append({'signature': 'C11|from_iterable|outputs-differ', 'detail': dict(case, emitted=sink.items, error=repr(sink.error))})
+    elif seen != [(i, i + 1) for i in range(n)]:
+        out.append({'signature': 'C11|from_iterable|source-consumed-ahead-of-its-output',
+                    'detail': dict(case, item_and_elements_taken_when_emitted=seen)})
+    acc.outcomes.add(fast_hash(repr((case, seen))))
+    return out
+
+
 def run_case(case, acc):
+    if 'framing' in case:
+        return run_framing(case, acc)
+    if 'source' in case:
+        return run_source(case, acc)
     spec, seq = case['spec'], case['seq']
     key = repr(spec)
     acc.programs.add(fast_hash(key))
